@@ -116,6 +116,8 @@ func cfgOpts() []cfgOpt {
 		{"descriptor(valid)", d("application/vnd.test.config.v1+json", userData, map[string]string{"com.example.c": "1"}), nil},
 		{"descriptor(valid)+ConfigAnnotations", d("application/vnd.test.config.v1+json", userData, nil), ca},
 		{"descriptor(empty-JSON type)", d(mtEmpty, "{}", nil), nil},
+		// the bytes of the empty JSON object under a custom media type: shares its digest, not its identity, with the placeholder blob
+		{"descriptor(custom type, content {})", d("application/vnd.test.config.v1+json", "{}", nil), nil},
 		{"descriptor(media type \"\")", d("", userData, nil), nil},
 		{"descriptor(media type with space)", d("application/x y", userData, nil), nil},
 		{"descriptor(media type with parameter)", d("application/json; charset=utf-8", userData, nil), nil},
